@@ -334,8 +334,22 @@ func runRace(e *ev.Env) {
 					key := keyOf(round, g%raceKeys)
 					method := []string{"POST", "PUT", "PATCH", "DELETE"}[g%4]
 					reps := 1 + g%2
+					// every goroutine is a keep-alive connection: ONE RequestCtx serves its requests
+					// one after the other, the next request overwrites the header buffers of the last
+					var fctx fasthttp.RequestCtx
+					conn := func(rq *drive.Req) *drive.Resp {
+						fctx.Response.Reset()
+						fctx.ResetUserValues()
+						return d.DoCtx(&fctx, rq)
+					}
 					for k := 0; k < reps; k++ {
-						record(key, d.Do(&drive.Req{Method: method, URI: "/", Hdr: []drive.H{{K: keyHeader, V: key}}}))
+						record(key, conn(&drive.Req{Method: method, URI: "/", Hdr: []drive.H{{K: keyHeader, V: key}}}))
+					}
+					if g%4 != 3 {
+						// the connection goes on with ANOTHER key of the round while duplicates of
+						// its first key may still be waiting for or holding that key's lock
+						key2 := keyOf(round, (g+3)%raceKeys)
+						record(key2, conn(&drive.Req{Method: method, URI: "/", Hdr: []drive.H{{K: keyHeader, V: key2}}}))
 					}
 					if g%16 == 0 {
 						// unaffected traffic in between: keyless unsafe, safe with the same key, safe
@@ -343,7 +357,7 @@ func runRace(e *ev.Env) {
 						for _, rq := range []*drive.Req{{Method: "POST", URI: "/"},
 							{Method: "GET", URI: "/", Hdr: []drive.H{{K: keyHeader, V: key}}},
 							{Method: "GET", URI: "/", Hdr: []drive.H{{K: keyHeader, V: "abc"}}}} {
-							resp := d.Do(rq)
+							resp := conn(rq)
 							if resp.Get("X-Ran") != "1" || resp.Status != 200 || !strings.HasPrefix(string(resp.Body), "free-") {
 								freeBad.Add(1)
 							}
